@@ -51,7 +51,7 @@ def main():
     finally:
         sh(f"git -C /repo worktree remove --force {wt}")
         shutil.rmtree(wt, ignore_errors=True)
-    sid = f"{prop}{letter}"
+    sid = sys.argv[4] if len(sys.argv) > 4 else f"{prop}{letter}"
     print(sid, "CONFIRMED" if ok else "REJECTED", json.dumps({k: v for k, v in log.items() if isinstance(v, bool)}))
     if not ok:
         print(json.dumps(log, indent=1))
@@ -65,7 +65,7 @@ def main():
         "breaks_property": prop,
         "summary": meta.get("summary"),
         "needs_to_manifest": meta.get("needs"),
-        "origin": "independent sub-agent given only the property text and a scratch worktree",
+        "origin": "independent sub-agent given only the property text (second-round agents also a list of changes already tried) and a scratch worktree",
         "confirmed_by_me": {
             "patch_applies_to_repo_HEAD": True,
             "builds_default_and_async": True,
